@@ -163,6 +163,8 @@ fn pipe_sequences() -> Vec<Vec<Op>> {
         vec![Op::ReadN(100), Op::Line, Op::Read],
         vec![Op::ReadN(8192), Op::ReadN(1), Op::Read],
         vec![Op::ReadN(0), Op::ReadN(10000), Op::ReadN(10000), Op::Read],
+        vec![Op::Line, Op::ToString],
+        vec![Op::ToString, Op::Read],
     ]
 }
 
@@ -442,7 +444,7 @@ impl Property for P21 {
                             Op::Read => "read(stdin)".to_string(),
                             Op::ReadN(n) => format!("read(stdin, {})", n),
                             Op::Line => "encode_utf8(read_line(stdin))".to_string(),
-                            Op::ToString => "read(stdin)".to_string(),
+                            Op::ToString => "encode_utf8(read_to_string(stdin))".to_string(),
                         };
                         src.push_str(&format!("let r = {}; println(\"{{}} {{}} {{}}\", len(r), first(r), last(r));\n", callsrc));
                         let m = model(&c, &mut cur, *op);
@@ -589,7 +591,7 @@ impl Property for P21 {
         }
     }
     fn rule(&self) -> String {
-        format!("files: sizes {:?} x (binary counter pattern with newlines at 0/4095/4096/8191/8192, UTF-8 text with 2-, 3- and 4-byte characters straddling the buffer boundaries); per file a breadth-first search over call sequences of depth <= 3 (thorough: every sequence of depth <= 4, states not merged) from {:?} (string-returning calls only where the data is valid UTF-8), model = content + cursor, canonical state = cursor (merged states cross-checked), every transition on a freshly opened handle and followed by a final read(f) that must return exactly the rest; pipes: 8 call sequences x every composition of the content into <= 3 chunks with sizes from {{1, 100, 4096, 4097, 8192, rest}} on a FIFO opened with the real open (in-process) and on stdin of the binary; the feeder writes chunk j+1 only when the pipe is empty (FIONREAD == 0), every schedule is run twice and must give identical observations, a reader still waiting after the writer closed is a hang; writes: mode (w, a, x, r, none) x target (missing, existing) x sequences of <= 2 (thorough 3) writes of sizes 0/1/8191/8192/8193 as string / byte array / single byte (byte forms carry every byte value; one sequence writes all 256 values one call each) x ending (handle closed; flush(f) with the handle still open): file content = old-content rule of the mode + the bytes written, and open must succeed or fail as documented", SIZES, OPS)
+        format!("files: sizes {:?} x (binary counter pattern with newlines at 0/4095/4096/8191/8192, UTF-8 text with 2-, 3- and 4-byte characters straddling the buffer boundaries); per file a breadth-first search over call sequences of depth <= 3 (thorough: every sequence of depth <= 4, states not merged) from {:?} (string-returning calls only where the data is valid UTF-8), model = content + cursor, canonical state = cursor (merged states cross-checked), every transition on a freshly opened handle and followed by a final read(f) that must return exactly the rest; pipes: 10 call sequences (incl. read_to_string) x every composition of the content into <= 3 chunks with sizes from {{1, 100, 4096, 4097, 8192, rest}} on a FIFO opened with the real open (in-process) and on stdin of the binary; the feeder writes chunk j+1 only when the pipe is empty (FIONREAD == 0), every schedule is run twice and must give identical observations, a reader still waiting after the writer closed is a hang; writes: mode (w, a, x, r, none) x target (missing, existing) x sequences of <= 2 (thorough 3) writes of sizes 0/1/8191/8192/8193 as string / byte array / single byte (byte forms carry every byte value; one sequence writes all 256 values one call each) x ending (handle closed; flush(f) with the handle still open): file content = old-content rule of the mode + the bytes written, and open must succeed or fail as documented", SIZES, OPS)
     }
     fn bounds(&self) -> Value {
         json!({"cases": self.cases.len(), "write_cases": self.wcases.len(), "binary_runs": self.e2e})
